@@ -9,7 +9,8 @@ def units():
 
 def extra(tier, seed):
     return [run_gen("processing.find_replace/match-ranges", ("C14",), c_sub.gen_match_ranges, tier == "thorough"),
-            run_gen("processing._is_atom/kinds", ("C14",), c_sub.gen_is_atom, tier == "thorough")]
+            run_gen("processing._is_atom/kinds", ("C14",), c_sub.gen_is_atom, tier == "thorough"),
+            run_gen("processing._do_rewrite/splice", ("C14", "C10"), c_sub.gen_splice, tier == "thorough")]
 
 
 def standins(tier, seed):
